@@ -19,7 +19,7 @@ PROP = "C13"
 LEVEL = "exploration"
 BUDGET = {"quick": 200, "thorough": 900}
 RULE = ("2-4 actors (reused Parser, fresh Parsers, FiltersSet editor incl. extension-bound tags such as :regex/:count/:value/"
-        ":copy/:create/:flags, reloader = parse + from_parser_result + render), histories of 4-30 whole public calls, the "
+        ":copy/:create/:flags, reloader = parse, then - other actors' calls later - from_parser_result + render), histories of 4-30 whole public calls, the "
         "interleaving drawn by the scheduler; scripts from a pool of valid scripts with different require sets, invalid "
         "scripts of each error class, and valid scripts truncated at a drawn byte (so that a parse ends mid-construct). "
         "Baselines: each parse alone in a freshly forked pristine child; each editor/reloader history alone in a freshly "
@@ -127,17 +127,23 @@ class Actors:
             return _parse_outcome(self.reused, spec[1])
         if kind == "fresh":
             return _parse_outcome(Parser(), spec[1])
-        if kind == "reload":
-            p = Parser()
-            out = _parse_outcome(p, spec[1])
-            if out[0] != "accepted":
-                return ("reload", out)
+        if kind == "reload-parse":
+            # first half of a reload: parse and keep the Parser
+            self.reload_parser = Parser()
+            self.reload_out = _parse_outcome(self.reload_parser, spec[1])
+            return ("reload-parse", self.reload_out)
+        if kind == "reload-load":
+            # second half, possibly many calls of other actors later
+            p = getattr(self, "reload_parser", None)
+            if p is None or self.reload_out[0] != "accepted":
+                return ("reload-load", "nothing to load")
             try:
                 fs = FiltersSet("r")
                 fs.from_parser_result(p)
-                return ("reload", out, str(fs), [f["name"] for f in fs.filters], sorted(fs.requires))
+                return ("reload-load", str(fs), [f["name"] for f in fs.filters], [f["enabled"] for f in fs.filters],
+                        sorted(fs.requires))
             except Exception as e:
-                return ("reload", out, "raised %s: %s" % (type(e).__name__, e))
+                return ("reload-load", "raised %s: %s" % (type(e).__name__, e))
         if kind == "editor":
             _, eid, op = spec
             fs = self.editors.get(eid)
@@ -254,10 +260,18 @@ def run(ch, config, res):
         if wl.flag("editor2", 1, 4):
             actors.append("editor1")
     plan = []
+    reload_pending = [False]
     for i in range(nsteps):
         with ch.scope("step#%d" % i):
             a = actors[ch.sched.int("actor", len(actors))]
-            if a in ("reused", "fresh", "reload"):
+            if a == "reload":
+                if reload_pending[0]:
+                    plan.append(("reload-load",))
+                    reload_pending[0] = False
+                else:
+                    plan.append(("reload-parse", draw_script(wl, "script", classes)))
+                    reload_pending[0] = True
+            elif a in ("reused", "fresh"):
                 plan.append((a, draw_script(wl, "script", classes)))
             else:
                 eid = int(a[-1])
@@ -284,6 +298,8 @@ def run(ch, config, res):
     for idx, spec in enumerate(plan):
         if spec[0] == "editor":
             editor_hist.setdefault(spec[1], []).append(idx)
+        elif spec[0] in ("reload-parse", "reload-load"):
+            editor_hist.setdefault("reloader", []).append(idx)
     editor_base = {}
     for eid, idxs in editor_hist.items():
         steps = [plan[i] for i in idxs]
@@ -303,12 +319,12 @@ def run(ch, config, res):
             if got[idx] != base:
                 failure = Failure(PROP, "C13.parse", "step %d (%s Parser, after %d other calls): parsing %r gave %r; alone in a pristine interpreter it gives %r" % (
                     idx, spec[0], idx, spec[1], _short(got[idx]), _short(base)), {"step": idx})
-        elif spec[0] == "reload":
-            base = in_child(lambda s=spec: Actors().step(s)) if ("reload", spec[1]) not in _BASELINE_CACHE else _BASELINE_CACHE[("reload", spec[1])]
-            _BASELINE_CACHE[("reload", spec[1])] = base
+        elif spec[0] in ("reload-parse", "reload-load"):
+            base = editor_base[idx]
             if got[idx] != base:
-                failure = Failure(PROP, "C13.factory", "step %d: parse + from_parser_result + render of %r gave %r; alone in a pristine interpreter %r" % (
-                    idx, spec[1], _short(got[idx]), _short(base)), {"step": idx})
+                failure = Failure(PROP, "C13.factory" if spec[0] == "reload-load" else "C13.parse",
+                                  "step %d: %s after %d interleaved calls gave %r; the reloader's own history alone in a pristine interpreter gives %r" % (
+                                      idx, spec[0], idx, _short(got[idx]), _short(base)), {"step": idx})
         else:
             base = editor_base[idx]
             if got[idx] != base:
@@ -316,7 +332,7 @@ def run(ch, config, res):
                     idx, spec[2], idx, _short(got[idx]), _short(base)), {"step": idx})
     res.digest = "%016x" % hash64(repr(got))
     res.count("steps", len(plan))
-    pattern = "".join({"reused": "R", "fresh": "F", "reload": "L", "editor": "E"}[s[0]] for s in plan)
+    pattern = "".join({"reused": "R", "fresh": "F", "reload-parse": "P", "reload-load": "L", "editor": "E"}[s[0]] for s in plan)
     turns = sum(1 for i in range(1, len(pattern)) if pattern[i] != pattern[i - 1])
     if turns >= 1 and (classes & {"invalid", "truncated", "ext-bound-def"}):
         res.sigs.add("%s|%s" % (pattern, ",".join(sorted(classes))))
